@@ -17,6 +17,9 @@ import (
 	"verif/harness/sim"
 )
 
+// runWatchdog bounds one simulated run (generous: js generation takes seconds).
+const runWatchdog = 90 * time.Second
+
 var (
 	procMu sync.Mutex
 	procs  = map[*exec.Cmd]bool{}
@@ -279,8 +282,40 @@ func (rc *runCtx) search(seed uint64, deadline time.Time, perWorkerCount uint64)
 				var last uint64
 				began, done := false, false
 				var ran uint64
+				// watchdog: a worker that reports nothing for a long time is stuck inside a run
+				// (a deadlock the simulator cannot see through, e.g. goroutines blocked on a mutex)
+				hung := false
+				progress := make(chan struct{}, 1)
+				stopDog := make(chan struct{})
+				go func() {
+					limit := runWatchdog
+					t := time.NewTimer(limit)
+					defer t.Stop()
+					for {
+						select {
+						case <-progress:
+							if !t.Stop() {
+								select {
+								case <-t.C:
+								default:
+								}
+							}
+							t.Reset(limit)
+						case <-t.C:
+							hung = true
+							cmd.Process.Kill()
+							return
+						case <-stopDog:
+							return
+						}
+					}
+				}()
 				for sc.Scan() {
 					line := sc.Text()
+					select {
+					case progress <- struct{}{}:
+					default:
+					}
 					switch {
 					case strings.HasPrefix(line, "BEGIN "):
 						last, _ = strconv.ParseUint(line[6:], 10, 64)
@@ -313,6 +348,7 @@ func (rc *runCtx) search(seed uint64, deadline time.Time, perWorkerCount uint64)
 				}()
 				err := cmd.Wait()
 				close(waitDone)
+				close(stopDog)
 				untrack(cmd)
 				if done && err == nil {
 					return
@@ -322,9 +358,13 @@ func (rc *runCtx) search(seed uint64, deadline time.Time, perWorkerCount uint64)
 						Res: crashResult(rc.spec.property, first, stderr.String(), fmt.Sprintf("worker exited before its first run: %v", err))})
 					return
 				}
-				// the run in flight killed the worker
-				rc.addFailure(&failure{Seed: seed, Run: last, Crash: true, Stderr: stderr.String(),
-					Res: crashResult(rc.spec.property, last, stderr.String(), fmt.Sprintf("worker died during run %d (seed %d): %v", last, seed, err))})
+				// the run in flight killed the worker (or hung it)
+				cr := crashResult(rc.spec.property, last, stderr.String(), fmt.Sprintf("worker died during run %d (seed %d): %v", last, seed, err))
+				if hung {
+					cr = &sim.Result{Run: last, Violation: &sim.Violation{Invariant: rc.spec.property + ".hang", Signature: "run exceeded watchdog",
+						Detail: fmt.Sprintf("run %d (seed %d) made no progress for %v: the code under test is stuck (deadlock or livelock)", last, seed, runWatchdog)}}
+				}
+				rc.addFailure(&failure{Seed: seed, Run: last, Crash: true, Stderr: stderr.String(), Res: cr})
 				first = last + uint64(n)
 				if perWorkerCount > 0 {
 					if ran >= remaining {
